@@ -89,14 +89,31 @@ Definition prefix_state (a S : store) : Prop :=
 Lemma prefix_state_rel a S : Rel a S -> prefix_state a S.
 Proof. intros [A B C]. split; [exact B|]. split; [apply seq_seqL; exact A | left; exact A]. Qed.
 
+(* ---------- log records below the replaying store's LSN counter ---------- *)
+Definition lsn_below (a : store) (L : list walentry) : Prop := Forall (fun w => w_lsn w < nextLSN a) L.
+
+Lemma lsn_below_replay a ws a' L :
+  replay a ws = RCont a' -> lsn_below a L -> lsn_below a' (L ++ ws).
+Proof.
+  intros Hr HL. destruct (replay_lsn _ _ _ Hr) as [Hle Hws]. apply Forall_app. split; [|exact Hws].
+  eapply Forall_impl; [|exact HL]. cbn. intros; lia.
+Qed.
+
+Lemma loginv_transfer a S L : seq a S -> lsn_below a L -> LogInv S L -> LogInv a L.
+Proof.
+  intros Hs Hb HL. unfold LogInv, lsn_below in *. rewrite Forall_forall in *. intros w Hw.
+  apply (rec_inert_seq a S w Hs); auto.
+Qed.
+
 (* one row insert, record by record *)
-Lemma redo_st_insert_detail a b name cols vals b2 ws :
-  Rel a b -> row_move_ok b name cols vals -> st_insert b name cols vals = (b2, Ok ws) ->
+Lemma redo_st_insert_detail L a b name cols vals b2 ws :
+  Rel a b -> GL L b -> lsn_below a L ->
+  row_move_ok b name cols vals -> st_insert b name cols vals = (b2, Ok ws) ->
   (exists w a2, ws = [w] /\ replay_one a w = RCont a2 /\ Rel a2 b2) \/
   (exists w w2 ah a2, ws = [w; w2] /\ replay_one a w = RCont ah /\ replay_one ah w2 = RCont a2 /\
-                      Rel a2 b2 /\ prefix_state ah b2).
+                      Rel a2 b2 /\ prefix_state ah b2 /\ LogInv ah (L ++ [w])).
 Proof.
-  intros HR Hok Hst.
+  intros HR HGL HLa Hok Hst.
   destruct (st_insert_shape _ _ _ _ _ _ Hst) as (off & bs & b1 & k & lsn & nr & Hsys & Hpre & Hbt & Hcase).
   unfold row_move_ok in Hok. rewrite Hsys, Hpre, Hbt in Hok.
   destruct (redo_insert a b off bs b1 k lsn nr HR Hbt) as (Hl & Hnl & a1 & HR1 & Hlt & Hrep).
@@ -105,112 +122,160 @@ Proof.
   - apply N.eqb_neq in Hne. rewrite Hne in Hrep, Hok.
     destruct (redo_root_move_pair a1 b1 off nr name lsn b2 ws' HR1 Hlt Hnl Hok Hup)
       as (w2 & ah & a2 & -> & Hrm & Hr2 & HR2 & pg & key & bs' & Ew2 & HRh & Hf2 & Hp2 & Hn2).
+    assert (Hrep' : replay_one a (mkWal OpInsert lsn off k bs) = RCont ah)
+      by (rewrite Hrep; unfold after_root_move; rewrite Hrm; reflexivity).
     right. exists (mkWal OpInsert lsn off k bs), w2, ah, a2. split; [reflexivity|].
-    split; [rewrite Hrep; unfold after_root_move; rewrite Hrm; reflexivity|].
-    split; [exact Hr2|]. split; [exact HR2|].
-    pose proof (seq_seqL _ _ (rel_seq _ _ HRh)) as [L _ _].
-    destruct HRh as [[Sf Sp Sn] Gah _]. cbn [set_forest forest ptRoot nextFree] in Sf, Sp, Sn.
-    split; [exact Gah|]. split.
-    + constructor; [|congruence|congruence].
-      cbn [set_forest forest] in L. rewrite L, Hf2. apply erase_touch_forest_lsn.
-    + right. exists pg, key, bs', (lsn + 1). constructor; cbn [set_forest forest ptRoot nextFree]; [|congruence|congruence].
-      rewrite Hf2, (fclean_touch_forest pg key (lsn + 1) (upd_fun bs') _ _ Sf).
-      rewrite touch_forest_twice by (apply upd_fun_key || apply upd_fun_idem). reflexivity.
+    split; [exact Hrep'|]. split; [exact Hr2|]. split; [exact HR2|].
+    assert (H1 : GL (L ++ [mkWal OpInsert lsn off k bs]) b1).
+    { destruct HGL as [G Lg]. apply gl_app.
+      - replace b1 with (fst (bt_insert b off bs)) by (rewrite Hbt; reflexivity).
+        apply (gl_map L b); [apply good_bt_insert; exact G | | exact Lg]. intros w. apply inert_bt_insert. exact G.
+      - constructor; [|constructor]. eapply est_insert; eauto. }
+    split.
+    + pose proof (seq_seqL _ _ (rel_seq _ _ HRh)) as [Ls _ _].
+      destruct HRh as [[Sf Sp Sn] Gah _]. cbn [set_forest forest ptRoot nextFree] in Sf, Sp, Sn.
+      split; [exact Gah|]. split.
+      * constructor; [|congruence|congruence].
+        cbn [set_forest forest] in Ls. rewrite Ls, Hf2. apply erase_touch_forest_lsn.
+      * right. exists pg, key, bs', (lsn + 1). constructor; cbn [set_forest forest ptRoot nextFree]; [|congruence|congruence].
+        rewrite Hf2, (fclean_touch_forest pg key (lsn + 1) (upd_fun bs') _ _ Sf).
+        rewrite touch_forest_twice by (apply upd_fun_key || apply upd_fun_idem). reflexivity.
+    + apply (loginv_transfer ah _ _ (rel_seq _ _ HRh)).
+      * change [mkWal OpInsert lsn off k bs] with ([] ++ [mkWal OpInsert lsn off k bs]).
+        destruct (replay_one_lsn _ _ _ Hrep') as [A B]. apply Forall_app. split.
+        -- eapply Forall_impl; [|exact HLa]. cbn. intros; lia.
+        -- constructor; [exact A | constructor].
+      * destruct H1 as [G1 L1]. eapply Forall_impl; [|exact L1]. intros w Hw.
+        apply (inert_touch_gen b1 pg key (upd_fun bs') lsn (nextLSN b1) w); auto; lia.
 Qed.
 
-Lemma firstn_S_cons {A} (x : A) l n : firstn (S n) (x :: l) = x :: firstn n l.
-Proof. reflexivity. Qed.
-
-Lemma prefix_insert_rows rows : forall a b name cols batch n b' B m,
-  Rel a b -> rows_move_ok b name cols rows ->
+Lemma prefix_insert_rows L rows : forall a b name cols batch n b' B m,
+  Rel a b -> GL (L ++ batch) b -> lsn_below a (L ++ batch) -> rows_move_ok b name cols rows ->
   insert_rows b name cols rows batch n = (b', B, OOk m) ->
   exists ws, B = batch ++ ws /\ forall j, exists a_j,
     replay a (firstn j ws) = RCont a_j /\
     prefix_state a_j
-      (fst (fst (insert_rows b name cols (firstn (started (insert_sizes b name cols rows) j) rows) [] 0))).
+      (fst (fst (insert_rows b name cols (firstn (started (insert_sizes b name cols rows) j) rows) [] 0))) /\
+    LogInv a_j (L ++ batch ++ firstn j ws).
 Proof.
-  induction rows as [|r rest IH]; intros a b name cols batch n b' B m HR Hok H.
-  - cbn in H. inversion H; subst. exists []. split; [rewrite app_nil_r; reflexivity|].
-    intros j. exists a. rewrite firstn_nil. split; [reflexivity|]. cbn. apply prefix_state_rel. exact HR.
+  induction rows as [|r rest IH]; intros a b name cols batch n b' B m HR HGL HLa Hok H.
+  - cbn in H. inversion H. subst b' B. exists []. split; [rewrite app_nil_r; reflexivity|].
+    intros j. exists a. rewrite firstn_nil, app_nil_r. split; [reflexivity|]. cbn.
+    split; [apply prefix_state_rel; exact HR | apply (loginv_transfer a b _ (rel_seq _ _ HR) HLa (proj2 HGL))].
   - cbn [insert_rows] in H. cbn [rows_move_ok] in Hok. destruct Hok as [Hok1 Hok2].
     cbn [insert_sizes].
     destruct (st_insert b name cols r) as [b1 [ws1|e|]] eqn:Est; try discriminate.
-    assert (Hstore : forall i, fst (fst (insert_rows b name cols (firstn (S i) (r :: rest)) [] 0)) =
+    assert (Hstore : forall i, fst (fst (insert_rows b name cols (r :: firstn i rest) [] 0)) =
                                fst (fst (insert_rows b1 name cols (firstn i rest) [] 0))).
-    { intros i. rewrite firstn_S_cons. cbn [insert_rows]. rewrite Est. apply insert_rows_store. }
-    destruct (redo_st_insert_detail a b name cols r b1 ws1 HR Hok1 Est)
-      as [(w & a1 & -> & Hr1 & HR1)|(w & w2 & ah & a2 & -> & Hr1 & Hr2 & HR2 & Hhalf)].
-    + destruct (IH a1 b1 name cols (batch ++ [w]) (S n) b' B m HR1 Hok2 H) as (ws2 & EB & Hpre).
+    { intros i. cbn [insert_rows]. rewrite Est. apply insert_rows_store. }
+    assert (H0 : LogInv a (L ++ batch ++ []))
+      by (rewrite app_nil_r; apply (loginv_transfer a b _ (rel_seq _ _ HR) HLa (proj2 HGL))).
+    pose proof (log_st_insert (L ++ batch) b name cols r b1 ws1 HGL Est) as HGL1.
+    rewrite <- app_assoc in HGL1.
+    destruct (redo_st_insert_detail (L ++ batch) a b name cols r b1 ws1 HR HGL HLa Hok1 Est)
+      as [(w & a1 & -> & Hr1 & HR1)|(w & w2 & ah & a2 & -> & Hr1 & Hr2 & HR2 & Hhalf & Hlh)].
+    + assert (HLa1 : lsn_below a1 (L ++ batch ++ [w])).
+      { rewrite app_assoc. apply (lsn_below_replay a [w] a1); [cbn [replay]; rewrite Hr1; reflexivity | exact HLa]. }
+      destruct (IH a1 b1 name cols (batch ++ [w]) (S n) b' B m HR1 HGL1 HLa1 Hok2 H) as (ws2 & EB & Hpre).
       exists ([w] ++ ws2). split; [rewrite EB, app_assoc; reflexivity|].
       intros [|j0].
-      * exists a. split; [reflexivity|]. cbn. apply prefix_state_rel. exact HR.
-      * destruct (Hpre j0) as (a_j & A & Bp). exists a_j. cbn [app firstn replay length started]. rewrite Hr1.
-        split; [exact A|]. rewrite Nat.sub_0_r, Hstore. exact Bp.
-    + destruct (IH a2 b1 name cols (batch ++ [w; w2]) (S n) b' B m HR2 Hok2 H) as (ws2 & EB & Hpre).
+      * exists a. split; [reflexivity|]. cbn. split; [apply prefix_state_rel; exact HR | exact H0].
+      * destruct (Hpre j0) as (a_j & A & Bp & Cp). exists a_j. cbn [app firstn replay length started]. rewrite Hr1.
+        split; [exact A|]. split.
+        -- change (S j0 - 1)%nat with (j0 - 0)%nat. rewrite Nat.sub_0_r, Hstore. exact Bp.
+        -- rewrite <- app_assoc in Cp. exact Cp.
+    + assert (HLa2 : lsn_below a2 (L ++ batch ++ [w; w2])).
+      { rewrite app_assoc. apply (lsn_below_replay a [w; w2] a2); [cbn [replay]; rewrite Hr1, Hr2; reflexivity | exact HLa]. }
+      destruct (IH a2 b1 name cols (batch ++ [w; w2]) (S n) b' B m HR2 HGL1 HLa2 Hok2 H) as (ws2 & EB & Hpre).
       exists ([w; w2] ++ ws2). split; [rewrite EB, app_assoc; reflexivity|].
       intros [|[|j1]].
-      * exists a. split; [reflexivity|]. cbn. apply prefix_state_rel. exact HR.
-      * exists ah. cbn [app firstn replay length started]. rewrite Hr1. split; [reflexivity|].
-        change (1 - 2)%nat with O. destruct (insert_sizes b1 name cols rest); cbn [started]; rewrite Hstore; cbn [firstn insert_rows fst]; exact Hhalf.
-      * destruct (Hpre j1) as (a_j & A & Bp). exists a_j. cbn [app firstn replay length started]. rewrite Hr1, Hr2.
-        split; [exact A|]. change (S (S j1) - 2)%nat with (j1 - 0)%nat. rewrite Nat.sub_0_r, Hstore. exact Bp.
+      * exists a. split; [reflexivity|]. cbn. split; [apply prefix_state_rel; exact HR | exact H0].
+      * exists ah. cbn [app firstn replay length started]. rewrite Hr1. split; [reflexivity|]. split.
+        -- change (1 - 2)%nat with O. destruct (insert_sizes b1 name cols rest); cbn [started]; rewrite Hstore; cbn [firstn insert_rows fst]; exact Hhalf.
+        -- rewrite <- app_assoc in Hlh. exact Hlh.
+      * destruct (Hpre j1) as (a_j & A & Bp & Cp). exists a_j. cbn [app firstn replay length started]. rewrite Hr1, Hr2.
+        split; [exact A|]. split.
+        -- change (S (S j1) - 2)%nat with (j1 - 0)%nat. rewrite Nat.sub_0_r, Hstore. exact Bp.
+        -- rewrite <- app_assoc in Cp. exact Cp.
 Qed.
 
-Lemma prefix_update_rows ids : forall a b name cols vals batch b' B m,
-  Rel a b -> update_rows b name cols vals ids batch = (b', B, OOk m) ->
+Lemma prefix_update_rows L ids : forall a b name cols vals batch b' B m,
+  Rel a b -> GL (L ++ batch) b -> lsn_below a (L ++ batch) ->
+  update_rows b name cols vals ids batch = (b', B, OOk m) ->
   exists ws, B = batch ++ ws /\ forall j, exists a_j,
     replay a (firstn j ws) = RCont a_j /\
     prefix_state a_j
-      (fst (fst (update_rows b name cols vals (firstn (started (update_sizes b name cols vals ids) j) ids) []))).
+      (fst (fst (update_rows b name cols vals (firstn (started (update_sizes b name cols vals ids) j) ids) []))) /\
+    LogInv a_j (L ++ batch ++ firstn j ws).
 Proof.
-  induction ids as [|k rest IH]; intros a b name cols vals batch b' B m HR H.
-  - cbn in H. inversion H; subst. exists []. split; [rewrite app_nil_r; reflexivity|].
-    intros j. exists a. rewrite firstn_nil. split; [reflexivity|]. cbn. apply prefix_state_rel. exact HR.
+  induction ids as [|k rest IH]; intros a b name cols vals batch b' B m HR HGL HLa H.
+  - cbn in H. inversion H. subst b' B. exists []. split; [rewrite app_nil_r; reflexivity|].
+    intros j. exists a. rewrite firstn_nil, app_nil_r. split; [reflexivity|]. cbn.
+    split; [apply prefix_state_rel; exact HR | apply (loginv_transfer a b _ (rel_seq _ _ HR) HLa (proj2 HGL))].
   - cbn [update_rows] in H. cbn [update_sizes].
     destruct (st_update b name k cols vals) as [b1 [ws1|e|]] eqn:Est; try discriminate.
-    assert (Hstore : forall i, fst (fst (update_rows b name cols vals (firstn (S i) (k :: rest)) [])) =
+    assert (Hstore : forall i, fst (fst (update_rows b name cols vals (k :: firstn i rest) [])) =
                                fst (fst (update_rows b1 name cols vals (firstn i rest) []))).
-    { intros i. rewrite firstn_S_cons. cbn [update_rows]. rewrite Est. apply update_rows_store. }
+    { intros i. cbn [update_rows]. rewrite Est. apply update_rows_store. }
+    assert (H0 : LogInv a (L ++ batch ++ []))
+      by (rewrite app_nil_r; apply (loginv_transfer a b _ (rel_seq _ _ HR) HLa (proj2 HGL))).
+    pose proof (log_st_update (L ++ batch) b name k cols vals b1 ws1 HGL Est) as HGL1.
+    rewrite <- app_assoc in HGL1.
     destruct (redo_st_update a b name k cols vals b1 ws1 HR Est) as (a1 & Hr1 & HR1).
-    destruct (IH a1 b1 name cols vals (batch ++ ws1) b' B m HR1 H) as (ws2 & EB & Hpre).
+    assert (HLa1 : lsn_below a1 (L ++ batch ++ ws1)).
+    { rewrite app_assoc. apply (lsn_below_replay a ws1 a1 _ Hr1 HLa). }
+    destruct (IH a1 b1 name cols vals (batch ++ ws1) b' B m HR1 HGL1 HLa1 H) as (ws2 & EB & Hpre).
     exists (ws1 ++ ws2). split; [rewrite EB, app_assoc; reflexivity|].
     destruct (st_update_shape _ _ _ _ _ _ _ (rel_gb _ _ HR) Est) as [(-> & ->)|(pg & bs & _ & _ & _ & ->)].
     + (* no such row: nothing logged *)
       cbn [replay] in Hr1. inversion Hr1; subst a1. intros [|j0].
-      * exists a. split; [reflexivity|]. cbn. apply prefix_state_rel. exact HR.
-      * destruct (Hpre (S j0)) as (a_j & A & Bp). exists a_j. cbn [app length started]. split; [exact A|].
-        rewrite Nat.sub_0_r, Hstore. exact Bp.
+      * exists a. split; [reflexivity|]. cbn. split; [apply prefix_state_rel; exact HR | exact H0].
+      * destruct (Hpre (S j0)) as (a_j & A & Bp & Cp). exists a_j. cbn [app length started firstn]. split; [exact A|].
+        split; [rewrite Nat.sub_0_r, Hstore; exact Bp|]. rewrite app_nil_r in Cp. exact Cp.
     + cbn [replay] in Hr1. destruct (replay_one a _) as [a1'| | |] eqn:E1; try discriminate. inversion Hr1; subst a1'.
       intros [|j0].
-      * exists a. split; [reflexivity|]. cbn. apply prefix_state_rel. exact HR.
-      * destruct (Hpre j0) as (a_j & A & Bp). exists a_j. cbn [app firstn replay length started]. rewrite E1.
-        split; [exact A|]. rewrite Nat.sub_0_r, Hstore. exact Bp.
+      * exists a. split; [reflexivity|]. cbn. split; [apply prefix_state_rel; exact HR | exact H0].
+      * destruct (Hpre j0) as (a_j & A & Bp & Cp). exists a_j. cbn [app firstn replay length started]. rewrite E1.
+        split; [exact A|]. split.
+        -- change (S j0 - 1)%nat with (j0 - 0)%nat. rewrite Nat.sub_0_r, Hstore. exact Bp.
+        -- rewrite <- app_assoc in Cp. exact Cp.
 Qed.
 
-Lemma prefix_delete_rows ids : forall a b name batch n b' B m,
-  Rel a b -> delete_rows b name ids batch n = (b', B, OOk m) ->
+Lemma prefix_delete_rows L ids : forall a b name batch n b' B m,
+  Rel a b -> GL (L ++ batch) b -> lsn_below a (L ++ batch) ->
+  delete_rows b name ids batch n = (b', B, OOk m) ->
   exists ws, B = batch ++ ws /\ forall j, exists a_j,
     replay a (firstn j ws) = RCont a_j /\
     prefix_state a_j
-      (fst (fst (delete_rows b name (firstn (started (delete_sizes b name ids) j) ids) [] 0))).
+      (fst (fst (delete_rows b name (firstn (started (delete_sizes b name ids) j) ids) [] 0))) /\
+    LogInv a_j (L ++ batch ++ firstn j ws).
 Proof.
-  induction ids as [|k rest IH]; intros a b name batch n b' B m HR H.
-  - cbn in H. inversion H; subst. exists []. split; [rewrite app_nil_r; reflexivity|].
-    intros j. exists a. rewrite firstn_nil. split; [reflexivity|]. cbn. apply prefix_state_rel. exact HR.
+  induction ids as [|k rest IH]; intros a b name batch n b' B m HR HGL HLa H.
+  - cbn in H. inversion H. subst b' B. exists []. split; [rewrite app_nil_r; reflexivity|].
+    intros j. exists a. rewrite firstn_nil, app_nil_r. split; [reflexivity|]. cbn.
+    split; [apply prefix_state_rel; exact HR | apply (loginv_transfer a b _ (rel_seq _ _ HR) HLa (proj2 HGL))].
   - cbn [delete_rows] in H. cbn [delete_sizes].
     destruct (st_delete b name k) as [b1 [ws1|e|]] eqn:Est; try discriminate.
-    assert (Hstore : forall i, fst (fst (delete_rows b name (firstn (S i) (k :: rest)) [] 0)) =
+    assert (Hstore : forall i, fst (fst (delete_rows b name (k :: firstn i rest) [] 0)) =
                                fst (fst (delete_rows b1 name (firstn i rest) [] 0))).
-    { intros i. rewrite firstn_S_cons. cbn [delete_rows]. rewrite Est. apply delete_rows_store. }
+    { intros i. cbn [delete_rows]. rewrite Est. apply delete_rows_store. }
+    assert (H0 : LogInv a (L ++ batch ++ []))
+      by (rewrite app_nil_r; apply (loginv_transfer a b _ (rel_seq _ _ HR) HLa (proj2 HGL))).
+    pose proof (log_st_delete (L ++ batch) b name k b1 ws1 HGL Est) as HGL1.
+    rewrite <- app_assoc in HGL1.
     destruct (redo_st_delete a b name k b1 ws1 HR Est) as (a1 & Hr1 & HR1).
-    destruct (IH a1 b1 name (batch ++ ws1) (S n) b' B m HR1 H) as (ws2 & EB & Hpre).
+    assert (HLa1 : lsn_below a1 (L ++ batch ++ ws1)).
+    { rewrite app_assoc. apply (lsn_below_replay a ws1 a1 _ Hr1 HLa). }
+    destruct (IH a1 b1 name (batch ++ ws1) (S n) b' B m HR1 HGL1 HLa1 H) as (ws2 & EB & Hpre).
     exists (ws1 ++ ws2). split; [rewrite EB, app_assoc; reflexivity|].
     destruct (st_delete_shape _ _ _ _ _ Est) as (pg & _ & _ & ->).
     cbn [replay] in Hr1. destruct (replay_one a _) as [a1'| | |] eqn:E1; try discriminate. inversion Hr1; subst a1'.
     intros [|j0].
-    + exists a. split; [reflexivity|]. cbn. apply prefix_state_rel. exact HR.
-    + destruct (Hpre j0) as (a_j & A & Bp). exists a_j. cbn [app firstn replay length started]. rewrite E1.
-      split; [exact A|]. rewrite Nat.sub_0_r, Hstore. exact Bp.
+    + exists a. split; [reflexivity|]. cbn. split; [apply prefix_state_rel; exact HR | exact H0].
+    + destruct (Hpre j0) as (a_j & A & Bp & Cp). exists a_j. cbn [app firstn replay length started]. rewrite E1.
+      split; [exact A|]. split.
+      * change (S j0 - 1)%nat with (j0 - 0)%nat. rewrite Nat.sub_0_r, Hstore. exact Bp.
+      * rewrite <- app_assoc in Cp. exact Cp.
 Qed.
 
 (* ---------- whole statements ---------- *)
@@ -248,23 +313,28 @@ Definition op_sizes (s : store) (st : stmt) : list nat :=
   | _ => []
   end.
 
-Theorem prefix_stmt a b st m :
-  Rel a b -> is_dml st = true -> stmt_moves_ok b st -> e_out (run_stmt b st) = OOk m ->
+Theorem prefix_stmt L a b st m :
+  Rel a b -> GL L b -> lsn_below a L ->
+  is_dml st = true -> stmt_moves_ok b st -> e_out (run_stmt b st) = OOk m ->
   forall j, exists a_j,
     replay a (firstn j (e_batch (run_stmt b st))) = RCont a_j /\
-    prefix_state a_j (run_rows b st (started (op_sizes b st) j)).
+    prefix_state a_j (run_rows b st (started (op_sizes b st) j)) /\
+    LogInv a_j (L ++ firstn j (e_batch (run_stmt b st))).
 Proof.
-  intros HR Hd Hok Hout. destruct st; try discriminate; cbn [run_stmt run_rows op_sizes] in *.
+  intros HR HGL HLa Hd Hok Hout.
+  assert (HGL' : GL (L ++ []) b) by (rewrite app_nil_r; exact HGL).
+  assert (HLa' : lsn_below a (L ++ [])) by (rewrite app_nil_r; exact HLa).
+  destruct st; try discriminate; cbn [run_stmt run_rows op_sizes] in *.
   - destruct (insert_rows b table cols rows [] 0) as [[b' B] o] eqn:E. cbn [e_out e_batch] in *. subst o.
-    destruct (prefix_insert_rows rows a b table cols [] 0%nat b' B m HR Hok E) as (ws & -> & Hp). exact Hp.
+    destruct (prefix_insert_rows L rows a b table cols [] 0%nat b' B m HR HGL' HLa' Hok E) as (ws & -> & Hp). exact Hp.
   - destruct (existsb _ sets); [discriminate|].
     destruct (where_ids b table where_) as [ids|e|]; try discriminate.
     fold (upd_vals sets) in *.
     destruct (update_rows b table _ _ ids []) as [[b' B] o] eqn:E. cbn [e_out e_batch] in *. subst o.
-    destruct (prefix_update_rows ids a b table _ _ [] b' B m HR E) as (ws & -> & Hp). exact Hp.
+    destruct (prefix_update_rows L ids a b table _ _ [] b' B m HR HGL' HLa' E) as (ws & -> & Hp). exact Hp.
   - destruct (where_ids b table where_) as [ids|e|]; try discriminate.
     destruct (delete_rows b table ids [] 0) as [[b' B] o] eqn:E. cbn [e_out e_batch] in *. subst o.
-    destruct (prefix_delete_rows ids a b table [] 0%nat b' B m HR E) as (ws & -> & Hp). exact Hp.
+    destruct (prefix_delete_rows L ids a b table [] 0%nat b' B m HR HGL' HLa' E) as (ws & -> & Hp). exact Hp.
 Qed.
 
 (* ---------- at the level of the durable system ---------- *)
@@ -274,19 +344,27 @@ Theorem crash_in_log y st m j :
     step y (EvCrashInLog st j) = (SOk y', None) /\
     wal y' = wal y ++ firstn j (e_batch (run_stmt (mem y) st)) /\ disk y' = mem y' /\
     prefix_state (mem y') (run_rows (mem y) st (started (op_sizes (mem y) st) j)) /\
-    abs (mem y') = abs (run_rows (mem y) st (started (op_sizes (mem y) st) j)).
+    abs (mem y') = abs (run_rows (mem y) st (started (op_sizes (mem y) st) j)) /\
+    Inv y'.
 Proof.
   intros (r & Hrep & Hseq & Gr & [Gm Lm]) Hd Hmv Hout.
   destruct (redo_stmt r (mem y) st m (mkRel _ _ Hseq Gr Gm) Hd Hmv Hout) as (_ & _ & _ & Hfl).
-  destruct (prefix_stmt r (mem y) st m (mkRel _ _ Hseq Gr Gm) Hd Hmv Hout j) as (a_j & Hr & Gj & Lj & Dj).
+  assert (HLr : lsn_below r (wal y)) by (apply (replay_lsn _ _ _ Hrep)).
+  destruct (prefix_stmt (wal y) r (mem y) st m (mkRel _ _ Hseq Gr Gm) (conj Gm Lm) HLr Hd Hmv Hout j)
+    as (a_j & Hr & (Gj & Lj & Dj) & HLj).
   cbn [step]. rewrite Hout, Hfl. cbn [is_ok]. unfold recover. cbn [disk wal].
   rewrite (replay_app _ _ _ _ Hrep), Hr.
   eexists. split; [reflexivity|]. cbn [mem disk wal]. split; [reflexivity|]. split; [reflexivity|].
   assert (Sf : seq (flush a_j) a_j) by apply seq_flush.
-  split; [|apply seqL_abs; eapply seqg_trans; [apply seq_seqL; exact Sf | exact Lj]].
-  split; [apply good_flush; exact Gj|]. split; [eapply seqg_trans; [apply seq_seqL; exact Sf | exact Lj]|].
-  destruct Dj as [D|(pg & key & bs & lsn & D)]; [left; eapply seq_trans; eauto|].
-  right. exists pg, key, bs, lsn. eapply seq_trans; [|exact D].
-  destruct Sf as [F P N]. constructor; cbn [set_forest forest ptRoot nextFree]; auto.
-  apply fclean_touch_forest. exact F.
+  pose proof (good_flush a_j Gj) as Gf.
+  split; [|split; [apply seqL_abs; eapply seqg_trans; [apply seq_seqL; exact Sf | exact Lj]|]].
+  - split; [exact Gf|]. split; [eapply seqg_trans; [apply seq_seqL; exact Sf | exact Lj]|].
+    destruct Dj as [D|(pg & key & bs & lsn & D)]; [left; eapply seq_trans; eauto|].
+    right. exists pg, key, bs, lsn. eapply seq_trans; [|exact D].
+    destruct Sf as [F P N]. constructor; cbn [set_forest forest ptRoot nextFree]; auto.
+    apply fclean_touch_forest. exact F.
+  - assert (HGL : GL (wal y ++ firstn j (e_batch (run_stmt (mem y) st))) (flush a_j)).
+    { split; [exact Gf|]. eapply Forall_impl; [|exact HLj]. intros w. apply inert_flush. }
+    exists (flush a_j). cbn [mem disk wal]. split; [apply replay_inert; apply HGL|].
+    split; [apply seq_refl|]. split; [exact Gf | exact HGL].
 Qed.
